@@ -63,6 +63,7 @@ def check(repo, tier="quick"):
     res.rule("C25.c", "the validator state is created with _output_picture_callback=self._output_picture and that same state is given to init_io and parse_stream")
     res.rule("C25.d", "_output_picture numbers files from 0 in call order (counter initialised to 0, used then incremented exactly once, stored nowhere else) and passes its three arguments to file_format.write in write's parameter order; write creates the .raw/.json pair from them")
     res.rule("C25.e", "every exception the creation of a picture file may raise for a user-chosen name is translated, beneath the generic handler, into an error run() handles with its own status (never the internal-error status, never silently dropped)")
+    res.rule("C25.g", "history independence of picture output: the command, file_format and the dimension/depth computation keep no state between pictures")
     res.rule("C25.f", "main() returns run()'s status, which the entry point passes to sys.exit; output pattern is validated before use")
 
     m, cls = repo.cls(SCRIPT + ":BitstreamValidator")
@@ -221,6 +222,10 @@ def check(repo, tier="quick"):
     rule_d(repo, res, m, cls, meth)
     rule_e(repo, res, m, cls, meth, main_try, hnames, gen_idx)
     rule_f(repo, res, m)
+    from .. import globals_state
+
+    globals_state.rule(repo, res, "C25.g", ["scripts.vc2_bitstream_validator", "file_format", "dimensions_and_depths", "py2x_compat", "string_utils"], what="the files written for one picture (a later picture of another format would be written with an earlier one's parameters)")
+    res.floor("C25.g", 5)
     res.floor("C25.a", 8)
     res.floor("C25.b", 4)
     res.floor("C25.c", 4)
